@@ -1,2 +1,35 @@
-//! Read-only probe (child module of `ntp-proto/src/packet/v5/server_reference_id.rs`), compiled only under
-//! `--cfg pendulum_project_ntpd_rs_verif`. Owned by the world that needs it; must never mutate state.
+//! Read-only probe (child module of `ntp-proto/src/packet/v5/server_reference_id.rs`), compiled only
+//! under `--cfg pendulum_project_ntpd_rs_verif`. Owned by world w1x; never mutates state.
+
+use super::{BloomFilter, RemoteBloomFilter, ServerId};
+use crate::verif::system::XBloomView;
+
+impl RemoteBloomFilter {
+    pub fn verif_view(&self) -> XBloomView {
+        XBloomView {
+            bytes: *self.filter.as_bytes(),
+            chunk_size: self.chunk_size,
+            next_to_request: self.next_to_request,
+            last_requested: self.last_requested.map(|(o, c)| (o, c.0)),
+            filled: self.is_filled,
+        }
+    }
+}
+
+impl ServerId {
+    /// The ten 12-bit indices that make up this id.
+    pub fn verif_indices(&self) -> [u16; 10] {
+        let mut out = [0u16; 10];
+        for (o, v) in out.iter_mut().zip(self.0.iter()) {
+            *o = v.0;
+        }
+        out
+    }
+}
+
+impl BloomFilter {
+    /// Build a filter from raw bytes (simulated byzantine servers need arbitrary filters).
+    pub fn verif_from_bytes(bytes: [u8; 512]) -> BloomFilter {
+        BloomFilter(bytes)
+    }
+}
